@@ -453,6 +453,17 @@ func runProducerScenario(t testing.TB, rec *vRec, sc *prodScenario) {
 			}
 			close(done)
 		}()
+		// Close was called mid-flight: the brokers now answer whatever they were holding (a held
+		// request must not turn into a client-side read timeout)
+		select {
+		case <-done:
+		case <-time.After(30 * time.Millisecond):
+			for n := range sc.Plans {
+				var k int
+				fmt.Sscanf(n, "%d", &k)
+				c.Release(k)
+			}
+		}
 		if vAwait(done, vCloseMax) {
 			rec.Ev("close_ret", nil)
 		} else {
